@@ -1122,7 +1122,15 @@ class Interp:
                 if isinstance(t.value, ast.Name):
                     attrs.add((t.value.id, t.attr))
                 else:
-                    raise OutOfSubset('loop writes through a complex attribute target')
+                    chain = []
+                    b = t.value
+                    while isinstance(b, ast.Attribute):
+                        chain.append(b.attr)
+                        b = b.value
+                    if isinstance(b, ast.Name):
+                        attrs.add((b.id + '.' + '.'.join(reversed(chain)), t.attr))
+                    else:
+                        raise OutOfSubset('loop writes through a complex attribute target')
             elif isinstance(t, ast.Starred):
                 target(t.value)
         for n in body:
@@ -1207,8 +1215,11 @@ class Interp:
                 raise OutOfSubset(f'loop mutates {n} of kind {kind_of(old)}')
         for (o, a) in sorted(x for x in attrs):
             try:
-                ov = self.lookup(o, fr)
-            except OutOfSubset:
+                parts = o.split('.')
+                ov = self.lookup(parts[0], fr)
+                for pname in parts[1:]:
+                    ov = self.get_attr(ov, pname)
+            except (OutOfSubset, RaiseSignal):
                 continue
             if isinstance(ov, Obj) and a in ov.f:
                 entry[f'{o}.{a}'] = self.lib.snapshot(ov.f[a])
@@ -1266,9 +1277,11 @@ class Interp:
     def cut_for(self, st, fr, it, kind):
         key = self._loop_key(st, fr)
         ctx = self.ctx
+        step = 1
         if kind == 'range':
-            if it.step != 1:
-                raise OutOfSubset('symbolic range with step != 1')
+            if not (isinstance(it.step, int) and it.step >= 1):
+                raise OutOfSubset('symbolic range with a non-constant or non-positive step')
+            step = it.step
             lo, hi = it.lo, it.hi
             if not isinstance(st.target, ast.Name):
                 raise OutOfSubset('range loop target')
@@ -1282,6 +1295,11 @@ class Interp:
         qual, ordn = key
         pfx = f'{qual}.loop{ordn}'
         hi_eff = ops.vmax(lo, hi)
+        if step != 1:
+            # the values taken are lo + step*t; the first value >= hi ends the loop
+            span = ops.vmax(ops.arith('-', hi, lo), 0)
+            hi_eff = ops.arith('+', lo, ops.arith('*', step, ops.arith('//', ops.arith('+', span, step - 1), step)))
+        hooks = self.cfg.extra.get('loop_hooks', {}).get(key, {})
         # entry
         fr.l[ivar] = lo
         for j, s, v in self.eval_invs(key, fr):
@@ -1291,6 +1309,8 @@ class Interp:
         k = ctx.fresh_int(ivar)
         ctx.assume(ops.compare('<=', lo, k))
         ctx.assume(ops.compare('<=', k, hi_eff))
+        if step != 1:
+            ctx.assume(ops.equal(ops.arith('%', ops.arith('-', k, lo), step), 0))
         fr.l[ivar] = k
         env = {n + '__entry': v for n, v in entry.items() if '.' not in n}
         for j, s, v in self.eval_invs(key, fr, env):
@@ -1298,6 +1318,8 @@ class Interp:
         if c == 0:
             ctx.assume(ops.compare('<', k, hi))
             ctx.cover(f'{pfx}.body')
+            if 'start' in hooks:
+                hooks['start'](self, fr, k)
             if kind == 'arr':
                 self.assign(st.target, elem(k), fr)
             elif kind == 'enum':
@@ -1308,15 +1330,19 @@ class Interp:
                 pass
             except BreakSignal:
                 return
-            fr.l[ivar] = ops.arith('+', k, 1)
+            if 'end' in hooks:
+                hooks['end'](self, fr, k)
+            fr.l[ivar] = ops.arith('+', k, step)
             self.check_frame(key)
             for j, s, v in self.eval_invs(key, fr, env):
                 ctx.prove(v, f'{pfx}.inv{j}.preserved', {'inv': s})
             raise PathEnd()
         ctx.assume(ops.equal(k, hi_eff))
+        if 'exit' in hooks:
+            hooks['exit'](self, fr, k)
         if kind == 'range':
             # Python leaves the last iterated value in the loop variable
-            fr.l[ivar] = ops.arith('-', k, 1)
+            fr.l[ivar] = ops.arith('-', k, step)
             fr.l[ivar + '__next'] = k
         self.exec_block(st.orelse, fr)
 
